@@ -253,6 +253,28 @@ Definition arg2 {X Y} (args : list val) (da : val -> option X) (db : val -> opti
   match args with [a; b] => match da a, db b with Some x, Some y => f x y | _, _ => VBad end | _ => VBad end.
 Definition rint : R Z -> val := val_of_R VInt.
 
+(* the provided adaptors: WeekdaySetIter overrides none of size_hint / count / last / nth / nth_back,
+   so they are the core::iter defaults over next / next_back ((0, None) for size_hint);
+   rev() swaps the two ends; at most 7 items come, the 8th call returns None *)
+Fixpoint it_collect (step : Z -> Z -> R (option Z * Z)) (fuel : nat) (days start : Z) : R (list Z) :=
+  match fuel with
+  | O => OutOfFuel
+  | S f =>
+      let* '(item, days') := step days start in
+      match item with
+      | None => Val []
+      | Some x => let* rest := it_collect step f days' start in Val (x :: rest)
+      end
+  end.
+Definition it_adapt (days start k : Z) : R val :=
+  let* fw := it_collect it_next 9 days start in
+  let* bw := it_collect it_next_back 9 days start in
+  let wds l := VTup (map enc_wd l) in
+  Val (VTup [VInt 0; VNone;
+             VInt (Z.of_nat (List.length fw)); vo enc_wd (List.last (map Some fw) None);
+             vo enc_wd (nth_error fw (Z.to_nat k)); vo enc_wd (nth_error bw (Z.to_nat k));
+             vo enc_wd (nth_error bw (Z.to_nat k)); wds fw; wds bw; VInt (it_len days)]).
+
 Definition run (op : bytes) (args : list val) : val :=
   let a1 {X} := @arg1 X args in
   let a2 {X Y} := @arg2 X Y args in
@@ -328,6 +350,14 @@ Definition run (op : bytes) (args : list val) : val :=
         match dec_ws a, dec_wd b, dec_sched c with
         | Some s, Some w, Some sched => val_of_R (fun l => VTup (map enc_step l)) (it_run sched s w)
         | _, _, _ => VBad
+        end
+    | _ => VBad end
+  else if op_is op "ws.adapt" then
+    match args with
+    | [a; b; VInt k] =>
+        match dec_ws a, dec_wd b with
+        | Some s, Some w => if (0 <=? k) && (k <=? 9) then val_of_R (fun v => v) (it_adapt s w k) else VBad
+        | _, _ => VBad
         end
     | _ => VBad end
   else VErr B"NOOP".
